@@ -36,16 +36,19 @@ fn content(rng: &mut Rng, big: bool) -> String {
 /// Directory names beyond letters, digits, `.`, `_`, `-` (raw; the case line carries them escaped,
 /// `c03fs::escape_path`): blanks and other white space in front, behind and inside, every ASCII
 /// punctuation character, control characters, a leading / trailing dot.  Disjoint from `ODD_FILES`.
-pub const ODD_DIRS: [&str; 40] = [
+pub const ODD_DIRS: [&str; 45] = [
     " d", "d ", "d x", "  d  ", "\td", "d\t", "d\n", "\rd", "d\x0b", "\x0cd", "d+1", "d=2", "d,3", "(d)", "d'4", "d!", "@d", "#d",
     "$d", "d%5", "d%20", "d&6", "[d]", "d~", "d^", "{d}", "d;", "d:", ".d", "d.", "d\\e", "d*", "d?", "d\"", "d<", "d>",
     "d|", "\x01d", "d\x7f", "`d",
+    // runs of dots inside a name (legal; only the names `.` and `..` themselves are special)
+    "d..", "d..e", "..d", "d...", "...",
 ];
 /// File names of the same kinds (a name made of blanks only included)
-pub const ODD_FILES: [&str; 48] = [
+pub const ODD_FILES: [&str; 53] = [
     " f0", "f0 ", "f 0", " ", "  ", " f1.bin", "f1.bin ", "f1 .bin", "  f  ", "\tf", "f\t", "f\n", "\nf", "f\r", "\x0bf", "f\x0c",
     "f+", "f=1", "f,1", "(f)", "f'", "f!", "@f", "#f", "$f", "f%", "f%20", "%", "f&", "[f]", "x~", "f^", "{f}", "f;1", "f:1", ".f",
     "f.", "f\\g", "f*", "f?", "f\"", "f<", "f>", "f|", "\x01f", "f\x7f", "`f", "f0 .",
+    "f..", "f..old.log", "..f", "f...x", "....",
 ];
 
 /// directory names start with `d`/`D`, file names with `f`/`F`/`x`: a name is never both
